@@ -78,8 +78,10 @@ def run(chk):
     # names a refactoring may bind at module level or in the function prologue (lookup tables, helpers)
     from ..pkgenv import Package
 
-    pre_env = dict(Package(repo).env(FILE))
-    pre_env["supported_types"] = list(sup)
+    P20 = Package(repo)  # one environment for every evaluation below: state that outlives a call (a mutable default argument,
+    # a module-level table) is part of what is evaluated
+    pre_env = P20.env(FILE)
+    pre_env.setdefault("supported_types", list(sup))
 
     # ---- N: node predicate, by evaluating the whole function on one-node-under-test model circuits ---------
     # Robust to any restructuring of lint (helper closures, generators, dispatch tables): the body is evaluated for
@@ -92,23 +94,16 @@ def run(chk):
         raise AnalysisError(f"lint(): integer constant {K-1} in a guard; abstract count domain would explode", FILE, fn.lineno)
 
     def run_lint_node(c, flags, fail_fast):
-        env = dict(pre_env)
-        env.update({cname: c, "fail_fast": fail_fast, "undriven": flags[0], "unloaded": flags[1], "single_input_gates": flags[2]})
-        bi = BlockInterp(env, max_steps=100000)
-        try:
-            r = bi.run(body)
-        except ModelRaise as e:
-            return ("raise", e.kind)
-        except Unsupported as e:
-            raise AnalysisError(f"lint(): unrecognised idiom: {e}", FILE, fn.lineno)
-        return r if isinstance(r, tuple) else ("return", None)
+        r = P20.call(FILE, "lint", c, fail_fast=fail_fast, undriven=flags[0], unloaded=flags[1], single_input_gates=flags[2])
+        return r[:2] if r[0] == "raise" else ("return", None)
 
     # "arbitrary type/output attributes": besides an unknown string, attribute values of other kinds - among them an unhashable
     # one, which a hashed lookup would answer with TypeError where the documented report is ValueError - and an output flag
     # that is truthy without being the object True
     junk_types = [["and"], None, 7, 0, 1]  # ints 0 / 1: the *strings* "0" and "1" are supported types
     types = list(sup) + [MISSING, "bogus_type"] + junk_types
-    fo_states = [(0, None)] + [(k, ft) for k in range(1, min(K, 3) + 1) for ft in ("buf", "not")]
+    # (a load without a type attribute: the circuit is ill-formed whatever g is - and the report is still ValueError)
+    fo_states = [(0, None)] + [(k, ft) for k in range(1, min(K, 3) + 1) for ft in ("buf", "not")] + [(1, MISSING), (2, MISSING)]
     # dotted names: instance registered / not registered / not registered while a registered instance's name is a proper
     # prefix of it (u1 next to u10) / while it is a proper prefix of a registered one
     name_forms = [("n0", {}), ("u0.p", {"u0": True}), ("u1.p", {}), ("u10.p", {"u1": True}), ("u1.p", {"u10": True, "u": True})]
@@ -135,14 +130,14 @@ def run(chk):
                             attrs[f"fi{i}"] = {"type": "input", "output": False}
                             edges.append((f"fi{i}", g))
                         for i in range(foc):
-                            attrs[f"fo{i}"] = {"type": fot, "output": True}
+                            attrs[f"fo{i}"] = {"output": True} if fot is MISSING else {"type": fot, "output": True}
                             edges.append((g, f"fo{i}"))
                         tr = "bogus_type" if is_junk else t  # for the lookups of the reference: no other documented rule speaks about such a value
                         bbmap = {k: MBlackBox("bb", [], []) for k in bbs}
                         for undriven, unloaded, sig in flag_sets:
                             n_states += 1
                             clauses = []
-                            if t is MISSING:
+                            if t is MISSING or (foc and fot is MISSING):
                                 clauses.append("no-type")
                             elif is_junk or t not in sup:
                                 clauses.append("unsupported-type")
@@ -161,11 +156,10 @@ def run(chk):
                             if sig and tr in MULTI_FANIN and fic < 2:
                                 clauses.append(f"single-input-{tr}")
                             dont_care = False
-                            if unloaded and not out and foc == 0:
-                                if tr == "bb_input":
-                                    dont_care = True  # a blackbox input pin never has a load; either reading of "unloaded" is accepted
-                                else:
-                                    clauses.append("unloaded")
+                            # (a blackbox input pin never has fan-out - its load is the blackbox - and is not an unloaded node: with the
+                            # other reading no circuit with a blackbox instance, the library's own s27 among them, passes the flag)
+                            if unloaded and not out and foc == 0 and tr != "bb_input":
+                                clauses.append("unloaded")
                             # the fan-in neighbours are inputs that feed only g: with g typed so that the edge is illegal they stay clean themselves
                             want = bool(clauses)
                             for fail_fast in (True, False):
@@ -220,16 +214,8 @@ def run(chk):
     params = func_params(fn)
 
     def run_lint(c, fail_fast):
-        env = dict(pre_env)
-        env.update({cname: c, "fail_fast": fail_fast, "unloaded": False, "undriven": False, "single_input_gates": False})
-        bi = BlockInterp(env, max_steps=100000)
-        try:
-            r = bi.run(body)
-        except ModelRaise as e:
-            return ("raise", e.kind)
-        except Unsupported as e:
-            raise AnalysisError(f"lint(): unrecognised idiom: {e}", FILE, fn.lineno)
-        return r if isinstance(r, tuple) else ("return", None)
+        r = P20.call(FILE, "lint", c, fail_fast=fail_fast, unloaded=False, undriven=False, single_input_gates=False)
+        return r[:2] if r[0] == "raise" else ("return", None)
 
     def registry_model(defs):
         """defs: {inst: (bbname, {pin: ('in'|'out', present, type)})}; type MISSING = the pin node exists without a type attribute"""
